@@ -762,4 +762,40 @@ def run_tables(ctx):
     except ImportError:
         pass
     ctx.count('tables:fix_gate_type', k)
+
+    # (i) synthesis over a caller-chosen basis (a list of Operation - the documented form): the encoding reads each
+    # operation's table again.  One gate over x0, x1: with basis [op] a circuit may only come back when it computes the
+    # requested function under the reference tables, and must come back when the function is op(x0, x1) itself; the
+    # same with every pair of operations (what two tables have in common is encoded once).
+    k = 0
+    try:
+        from cirbo.core.truth_table import TruthTableModel
+        from cirbo.synthesis.exception import NoSolutionError
+        ops = list(cs.Operation)
+        prng = __import__('random').Random('C01:basis:%s' % ctx.seed)
+        reqs = [([op], f) for op in ops for f in range(16)]
+        for a_ in range(len(ops)):
+            for b_ in range(a_ + 1, len(ops)):
+                fs = range(16) if ctx.tier == 'thorough' else prng.sample(range(16), 2)
+                reqs += [([ops[a_], ops[b_]], f) for f in fs]
+        for basis_ops, f in reqs:
+            k += 1
+            want = [bool((f >> (3 - i)) & 1) for i in range(4)]
+            names = [o.name.rstrip('_').upper() for o in basis_ops]
+            ctx.case('basis_list:%s:%d' % ('+'.join(names), f), True)
+            realisable = any([refsem.op_scalar(nm, (bool(i // 2), bool(i % 2))) for i in range(4)] == want for nm in names)
+            try:
+                with monitor.suspended():
+                    c = cs.CircuitFinderSat(TruthTableModel([want]), 1, basis=list(basis_ops)).find_circuit()
+            except NoSolutionError:
+                if realisable:
+                    tv('CircuitFinderSat(basis=list)', 'type_code', 'f = %r is %s(x0, x1) for an operation of the basis %r, yet no 1-gate circuit was found' % (want, names, names))
+                continue
+            got = refsem.output_table(refsem.net_of(c))[0]
+            if got != want:
+                tv('CircuitFinderSat(basis=list)', 'type_code', 'basis %r, requested %r: returned circuit computes %r (gate %s)' % (
+                    names, want, got, c.get_gate('s2').gate_type.name))
+    except ImportError:
+        pass
+    ctx.count('tables:basis_list', k)
     ctx.exhaustive_spaces['cross_module_gate_tables'] = True
